@@ -1,10 +1,12 @@
 """C39 — telnet option negotiation always converges.
 
-Two real `twisted.conch.telnet.Telnet` instances joined by two FIFO channels whose delivery the case
-schedules (one negotiation command at a time, whole or byte by byte), requests made through the public
-`will/wont/do/dont` API, policy hooks answering from a fixed per-endpoint set — against the Lean model
-(TwistedModel/Telnet/Negotiate.lean), event by event; plus the property oracle evaluated on the real
-objects alone (drains the channels, then checks Deferreds, message counts and agreement)."""
+Two real `twisted.conch.telnet` endpoints (a `Telnet` subclass, or a `TelnetTransport` wrapping a `TelnetProtocol`)
+joined by two FIFO byte channels whose delivery the case schedules (a command at a time, byte by byte, or as
+arbitrary byte segments that ignore command boundaries; or synchronously, inside the request call), requests made
+through the public `will/wont/do/dont` API, policy hooks answering from a fixed per-endpoint set (as bools or as
+truthy / falsy values) — against the Lean model (TwistedModel/Telnet/Negotiate.lean + NegotiateSeg.lean), op by op;
+plus the property oracle evaluated on the real objects alone (drains the channels, then checks Deferreds, message
+counts and agreement)."""
 import json
 import random
 
@@ -12,24 +14,34 @@ from twisted.conch import telnet
 from twisted.internet.testing import StringTransport
 
 HEADLINE = "TwistedProps.C39.negotiation_converges"
-RULE = ("a case = policies (which options each endpoint's enableLocal/enableRemote accept) + a history of ops: "
-        "requests `q<side>:<WILL|WONT|DO|DONT>:<opt>` through the public API and deliveries `d<side>` of the oldest "
-        "command in flight to that side; generated (a) exhaustively with state hashing over the real objects "
-        "(1 option: up to 3 requests quick / 6 thorough; 2 options: 2 / 4), every policy combination, one case per "
-        "distinct reachable (options, channels, requests-left) state, (b) scenario templates (simultaneous and crossing "
-        "requests, request during a pending reply, re-request after refusal), (c) random histories of 5..60 ops over "
-        "up to 4 options biased to enabled requests, ~15% with a `do` the endpoint's own policy refuses (the proof's "
-        "hypothesis, tie only), (d) oracle-only histories where requests are issued from inside Deferred callbacks; "
-        "distinct = set of per-op event shapes (ids/options erased) occurring in the history")
+RULE = ("a case = policies (which options each endpoint's enableLocal/enableRemote accept) + endpoint flags (`ep`: Telnet "
+        "subclass or TelnetTransport+protocol; `ret`: hooks answer with bools, 1/0, [opt]/None or 'yes'/''; `bytewise`) + a "
+        "history of ops: requests `q<side>:<WILL|WONT|DO|DONT>:<opt>` through the public API, the same on a synchronous "
+        "transport `s<side>:…` (a write pumps both directions until nothing is in flight, before the request returns), "
+        "deliveries `d<side>` of the (rest of the) oldest command in flight to that side, segments `b<side>:<n>` = the next n "
+        "bytes in flight as ONE dataReceived call (fragments, several commands, cuts anywhere); generated (a) exhaustively "
+        "with state hashing over the real objects (1 option: up to 3 requests quick / 6 thorough; 2 options: 2 / 4), every "
+        "policy combination, one case per distinct reachable (options, channels, requests-left) state, each then dressed "
+        "round-robin with the flags / option bytes 255, 240, 250, 251, 13, 10, 0, 127, 128 … / coalesced deliveries, (b) "
+        "scenario templates (an option refused k times in a row, enable/disable cycles, crossing requests on coalescing and "
+        "synchronous transports, a request repeated from its own callback), (c) sweeps over 49..256 distinct options, (d) "
+        "random histories of 5..90 ops over up to 4 of 20 option bytes biased to enabled requests, half with byte "
+        "segments, 40% with synchronous requests, ~12% with a `do` the endpoint's own policy refuses (the proof's "
+        "hypothesis, tie only), (e) oracle-only histories where requests are issued from inside Deferred callbacks (aimed "
+        "at the completing request's own option); distinct = flags + set of per-op event shapes (ids/options erased)")
 ASSUMES = [
-    "each endpoint's enableLocal/enableRemote answer is a fixed predicate on the option and accepts every option the "
-    "endpoint itself requests with will()/do() (the property's precondition; the theorems need it for do() only)",
-    "each direction is a FIFO byte stream carrying only negotiation commands (application data: C38)",
+    "each endpoint's enableLocal/enableRemote answer is a fixed predicate on the option (any truthy value accepts) and "
+    "accepts every option the endpoint itself requests with will()/do() (the property's precondition; the theorems need it "
+    "for do() only); the hooks do not themselves issue requests about the option and direction they are deciding",
+    "each direction is a FIFO byte stream carrying only negotiation commands (application data: C38), cut into segments "
+    "arbitrarily; a synchronous transport pumps until quiescent and is not re-entered (no dataReceived inside the same "
+    "endpoint's dataReceived)",
     "Deferred callbacks added by the application do not raise",
 ]
 TRUSTED = [
     "twisted.internet.testing.StringTransport as the byte sink of each endpoint",
-    "Telnet.dataReceived turns IAC <cmd> <opt> into commandReceived(cmd, opt) for any segmentation (C38)",
+    "Telnet.dataReceived turns IAC <cmd> <opt> into commandReceived(cmd, opt) for any segmentation (C38) — now also "
+    "exercised here: segments of 1..12 bytes across command boundaries are compared with the model's deliveries",
     "Deferred fires its callbacks synchronously, once (C01-C05); modelled as a cell",
 ]
 MANIFEST = {
@@ -39,10 +51,16 @@ MANIFEST = {
             "once always and exactly once when the channels are empty, at most 2 commands are ever sent per request (per "
             "option and in total) so delivery terminates, and with empty channels both sides agree on every option in both "
             "directions with no negotiation pending. Proved by projecting the system onto per-(option, direction) links, a "
-            "40-state inductive invariant of a link checked by kernel `decide`, and a refinement lemma per step. Model tied "
-            "to telnet.py by differential runs on real Telnet pairs, exhaustive over small histories with state hashing.",
+            "40-state inductive invariant of a link checked by kernel `decide`, and a refinement lemma per step. Extended "
+            "histories — byte segments that ignore command boundaries, requests on a synchronous transport — unfold to "
+            "command-level histories with the same requests (`mrun_is_run`, `mrun_requests`), so the same conclusions hold "
+            "for them (`negotiation_converges_segmented`), and a synchronous request returns with both channels empty "
+            "(`synchronous_request_quiesces`). Model tied to telnet.py by differential runs on real Telnet / TelnetTransport "
+            "pairs, exhaustive over small histories with state hashing, over 20 option bytes incl. 255 (IAC), up to 256 "
+            "options per connection, truthy/falsy policy answers.",
     "note": "trusts Lean kernel, the hand-written model of Telnet.will/wont/do/dont and the 16 handlers (differentially "
-            "tied), StringTransport, the Deferred-as-cell abstraction",
+            "tied), the unfolding of segments / synchronous pumps into deliveries (differentially tied), StringTransport, "
+            "the Deferred-as-cell abstraction",
     "technique": "Lean 4 proof (per-link finite invariant by decide + refinement/projection induction) + differential tie",
     "design_ref": "DESIGN.md §7.6 C39",
 }
@@ -50,18 +68,24 @@ MANIFEST = {
 CMDS = {"WILL": telnet.WILL, "WONT": telnet.WONT, "DO": telnet.DO, "DONT": telnet.DONT}
 NAMES = {v: k for k, v in CMDS.items()}
 SIDES = ("A", "B")
-OPTS = [1, 3, 31, 34, 0, 254]
+# option bytes: ordinary ones + the values that mean something else on the wire or to the parser
+# (255 = IAC, 240 = SE, 250 = SB, 251..254 = WILL..DONT, 13/10/0 = CR LF NUL, 241 = NOP, 127/128 = sign boundary)
+OPTS = [1, 3, 31, 34, 0, 254, 255, 13, 240, 250, 251, 253, 10, 241, 127, 128, 252, 24, 39, 200]
+# what an accepting / refusing policy hook returns, by the case's `ret` style (0 = plain bool)
+_ACCEPT = {1: lambda o: 1, 2: lambda o: [o], 3: lambda o: "yes"}
+_REFUSE = {1: lambda o: 0, 2: lambda o: None, 3: lambda o: ""}
 
 
 # ---------------------------------------------------------------------------------------
 # the real code
 
 class _Wire(StringTransport):
-    """Byte sink of one endpoint: what is written becomes commands in flight to the peer."""
+    """Byte sink of one endpoint: what is written becomes commands in flight to the peer.  When the world is
+    in a synchronous request (`s` op) a write pumps the channels before it returns, like an in-memory pipe."""
 
-    def __init__(self, side, log, queue):
+    def __init__(self, world, side, queue):
         StringTransport.__init__(self)
-        self.side, self.log, self.queue = side, log, queue
+        self.world, self.side, self.log, self.queue = world, side, world.log, queue
         self.pending = b""
 
     def write(self, data):
@@ -69,25 +93,32 @@ class _Wire(StringTransport):
         self.pending += data
         while len(self.pending) >= 3:
             m, self.pending = self.pending[:3], self.pending[3:]
-            assert m[:1] == telnet.IAC and m[1:2] in NAMES, m
+            if m[:1] != telnet.IAC or m[1:2] not in NAMES:
+                # not a negotiation command: the stream is out of frame (never on the unchanged code)
+                self.log.append(f"{self.side}.raised.WireFormat")
+                self.pending = b""
+                break
             self.log.append(f"{self.side}.sent.{NAMES[m[1:2]]}.{m[2]}")
             self.queue.append(m)
+        if self.world.syncing:
+            self.world.pump()
 
 
-class _EP(telnet.Telnet):
-    """Real Telnet; only the four policy hooks are supplied (they are the subclass API)."""
+class _Hooks:
+    """the four policy hooks (the subclass API): answer from a fixed per-endpoint set, in the case's return style"""
 
-    def __init__(self, side, log, local, remote):
-        telnet.Telnet.__init__(self)
-        self.side, self.log, self.local, self.remote = side, log, set(local), set(remote)
+    def _answer(self, yes, o):
+        if not self.ret:
+            return yes
+        return (_ACCEPT if yes else _REFUSE)[self.ret](o)
 
     def enableLocal(self, option):
         self.log.append(f"{self.side}.hook.enableLocal.{option[0]}")
-        return option[0] in self.local
+        return self._answer(option[0] in self.local, option[0])
 
     def enableRemote(self, option):
         self.log.append(f"{self.side}.hook.enableRemote.{option[0]}")
-        return option[0] in self.remote
+        return self._answer(option[0] in self.remote, option[0])
 
     def disableLocal(self, option):
         self.log.append(f"{self.side}.hook.disableLocal.{option[0]}")
@@ -96,29 +127,56 @@ class _EP(telnet.Telnet):
         self.log.append(f"{self.side}.hook.disableRemote.{option[0]}")
 
 
+class _EP(_Hooks, telnet.Telnet):
+    """Real Telnet; only the four policy hooks are supplied."""
+
+    def __init__(self, side, log, local, remote, ret):
+        telnet.Telnet.__init__(self)
+        self.side, self.log, self.local, self.remote, self.ret = side, log, local, remote, ret
+
+
+class _Proto(_Hooks, telnet.TelnetProtocol):
+    """The application protocol a real TelnetTransport delegates the policy hooks to."""
+
+    def __init__(self, side, log, local, remote, ret):
+        self.side, self.log, self.local, self.remote, self.ret = side, log, local, remote, ret
+
+
 class World:
     def __init__(self, case):
         self.log = []
         self.inbox = {"A": [], "B": []}
+        self.part = {"A": 0, "B": 0}     # bytes of the oldest command in flight already received by that side
         self.ep = {}
+        self.pol = {}                     # side -> (local set, remote set), shared with the hooks
         self.nreq = 0
         self.fired = {}           # request id -> list of results
         self.req_opt = {}         # request id -> option
-        self.sent_total = 0
         self.bytewise = bool(case.get("bytewise"))
+        self.syncing = False
+        self.busy = False
+        ret = int(case.get("ret") or 0)
         for side, l, r in (("A", case["la"], case["ra"]), ("B", case["lb"], case["rb"])):
-            e = _EP(side, self.log, l, r)
+            self.pol[side] = (set(l), set(r))
+            if case.get("ep") == "tt":
+                e = telnet.TelnetTransport(_Proto, side, self.log, self.pol[side][0], self.pol[side][1], ret)
+            else:
+                e = _EP(side, self.log, self.pol[side][0], self.pol[side][1], ret)
             peer = "B" if side == "A" else "A"
-            e.makeConnection(_Wire(side, self.log, self.inbox[peer]))
+            e.makeConnection(_Wire(self, side, self.inbox[peer]))
             self.ep[side] = e
 
-    def request(self, side, cmd, opt, then=()):
+    def request(self, side, cmd, opt, then=(), sync=False):
         rid = self.nreq
         self.nreq += 1
         self.req_opt[rid] = opt
         self.fired[rid] = []
         e = self.ep[side]
-        d = getattr(e, cmd.lower())(bytes([opt]))
+        was, self.syncing = self.syncing, self.syncing or sync
+        try:
+            d = getattr(e, cmd.lower())(bytes([opt]))
+        finally:
+            self.syncing = was
         d._verif_id = rid
 
         def cb(res, rid=rid, side=side):
@@ -126,30 +184,67 @@ class World:
             self.fired[rid].append(name)
             self.log.append(f"{side}.fired.{rid}.{name}")
             for (s2, c2, o2) in then:
-                self.request(s2, c2, o2)
+                self.request(s2, c2, o2)      # synchronous too iff issued inside a synchronous request
         d.addBoth(cb)
 
+    def feed(self, side, data):
+        try:
+            if self.bytewise:
+                for i in range(len(data)):
+                    self.ep[side].dataReceived(data[i:i + 1])
+            else:
+                self.ep[side].dataReceived(data)
+        except (AssertionError, AttributeError, NotImplementedError, IndexError, KeyError, TypeError, ValueError) as e:
+            self.log.append(f"{side}.raised.{type(e).__name__}")
+
     def deliver(self, side):
+        """the rest of the oldest command in flight to `side`, in one segment"""
         q = self.inbox[side]
         if not q:
             return False
         m = q.pop(0)
-        try:
-            if self.bytewise:
-                for i in range(3):
-                    self.ep[side].dataReceived(m[i:i + 1])
-            else:
-                self.ep[side].dataReceived(m)
-        except (AssertionError, AttributeError, NotImplementedError) as e:
-            self.log.append(f"{side}.raised.{type(e).__name__}")
+        data, self.part[side] = m[self.part[side]:], 0
+        self.feed(side, data)
         return True
 
-    def do(self, op):
+    def chunk(self, side, n):
+        """the next n bytes in flight to `side` (fewer if fewer are in flight) as ONE segment, whatever
+        command boundaries they cross"""
+        q = self.inbox[side]
+        data = b"".join(q)[self.part[side]:][:n]
+        if not data:
+            return False
+        k, self.part[side] = divmod(self.part[side] + len(data), 3)
+        del q[:k]
+        self.feed(side, data)
+        return True
+
+    def pump(self):
+        """synchronous transport: deliver until both channels are empty (not re-entered)"""
+        if self.busy:
+            return
+        self.busy = True
+        n = 0
+        try:
+            while self.inbox["A"] or self.inbox["B"]:
+                for s in SIDES:
+                    if self.inbox[s]:
+                        self.deliver(s)
+                        n += 1
+                if n > 4 * self.nreq + 16:
+                    self.log.append("A.raised.PumpLoop")
+                    break
+        finally:
+            self.busy = False
+
+    def do(self, op, then=()):
         if op[0] == "d":
             self.deliver(op[1])
+        elif op[0] == "b":
+            self.chunk(op[1], int(op.split(":")[1]))
         else:
             q, c, o = op.split(":")
-            self.request(q[1], c, int(o))
+            self.request(q[1], c, int(o), then=then, sync=(q[0] == "s"))
 
     def persp(self, p):
         s = p.state + ("*" if p.negotiating else "")
@@ -171,8 +266,12 @@ class World:
                 tuple(bytes(b"".join(self.inbox[s])) for s in SIDES))
 
 
+def _isreq(op):
+    return op[0] in "qs"
+
+
 def _options(case):
-    return sorted({int(op.split(":")[2]) for op in case["ops"] if op[0] == "q"})
+    return sorted({int(op.split(":")[2]) for op in case["ops"] if _isreq(op)})
 
 
 def _msgs(q):
@@ -190,7 +289,7 @@ def run_impl(case):
         out.append(",".join(w.log) if w.log else "-")
     states = [f"{s}{o}:{w.state(s, o)}" for s in SIDES for o in _options(case)]
     return (("|".join(out) if out else "-") + " final " + (";".join(states) if states else "-")
-            + f" toA={_msgs(w.inbox['A'])} toB={_msgs(w.inbox['B'])} n={w.nreq}")
+            + f" toA={_msgs(w.inbox['A'])} toB={_msgs(w.inbox['B'])} n={w.nreq} part={w.part['A']},{w.part['B']}")
 
 
 def model_line(case):
@@ -202,13 +301,39 @@ def model_line(case):
     return " ".join(["run", ls(case["la"]), ls(case["ra"]), ls(case["lb"]), ls(case["rb"])] + list(case["ops"]))
 
 
+def _canon(case, out):
+    """On a synchronous transport the Deferred of a request can fire before will()/do() has returned it, i.e. before
+    anybody could attach a callback: the harness then sees its result when it attaches its own, after the call.  The
+    position of that one event inside the group of an `s` op is an artefact of the harness, so it is moved to the
+    end of the group on both sides (its presence and result are compared)."""
+    if " final " not in out:
+        return out
+    body, rest = out.split(" final ", 1)
+    groups = body.split("|")
+    if len(groups) != len(case["ops"]):
+        return out
+    rid = 0
+    for i, op in enumerate(case["ops"]):
+        if op[0] == "s":
+            evs = groups[i].split(",")
+            own = [e for e in evs if e.split(".")[1:3] == ["fired", str(rid)]]
+            groups[i] = ",".join([e for e in evs if e not in own] + own)
+        if _isreq(op):
+            rid += 1
+    return "|".join(groups) + " final " + rest
+
+
+def compare(case, impl_out, model_out):
+    return _canon(case, impl_out) == _canon(case, model_out)
+
+
 # ---------------------------------------------------------------------------------------
 # the property on the implementation (independent of the model)
 
 def _wf(case):
     """the statement's precondition: policies accept the options the endpoint itself requests"""
     pol = {"A": (set(case["la"]), set(case["ra"])), "B": (set(case["lb"]), set(case["rb"]))}
-    reqs = [op.split(":") for op in case["ops"] if op[0] == "q"]
+    reqs = [op.split(":") for op in case["ops"] if _isreq(op)]
     for lst in (case.get("then") or {}).values():
         reqs += [["q" + s, c, str(o)] for (s, c, o) in lst]
     for q, c, o in reqs:
@@ -228,9 +353,8 @@ def oracle(case, out):
     nq = 0
     for op in case["ops"]:
         del w.log[:]
-        if op[0] == "q":
-            q, c, o = op.split(":")
-            w.request(q[1], c, int(o), then=[tuple(t) for t in then.get(str(nq), [])])
+        if _isreq(op):
+            w.do(op, then=[tuple(t) for t in then.get(str(nq), [])])
             nq += 1
         else:
             w.do(op)
@@ -238,29 +362,45 @@ def oracle(case, out):
         for rid, res in w.fired.items():
             if len(res) > 1:
                 return {"key": "deferred-fired-twice", "detail": f"request {rid} fired {res} after {op}"}
-    # drain: any interleaving must terminate; take one drawn from the case itself
+    # drain: any interleaving and segmentation must terminate; take one drawn from the case itself
     rng = random.Random(json.dumps(case, sort_keys=True))
+    chunky = rng.random() < 0.5
     deliveries = 0
     while w.inbox["A"] or w.inbox["B"]:
         side = rng.choice([s for s in SIDES if w.inbox[s]])
         del w.log[:]
-        w.deliver(side)
+        if chunky and rng.random() < 0.5:
+            w.chunk(side, rng.choice([1, 2, 4, 5, 6, 9]))
+        else:
+            w.deliver(side)
         log_all += w.log
         deliveries += 1
-        if deliveries > 2 * w.nreq + 8:
+        if deliveries > 3 * (2 * w.nreq + 8):
             return {"key": "message-loop", "detail": f"{deliveries} deliveries after the history for {w.nreq} requests; "
                     f"still in flight toA={_msgs(w.inbox['A'])} toB={_msgs(w.inbox['B'])}"}
     raised = [e for e in log_all if ".raised." in e]
     if raised:
         return {"key": "handler-raised:" + raised[0].split(".")[-1], "detail": f"{raised[0]} (events {log_all[-6:]})"}
+    for s in SIDES:
+        if w.ep[s].transport.pending:
+            return {"key": "handler-raised:WireFormat", "detail": f"{s} wrote a partial command {w.ep[s].transport.pending!r}"}
     for rid, res in w.fired.items():
         if len(res) != 1:
             return {"key": "deferred-fired-twice" if res else "deferred-never-fired",
                     "detail": f"request {rid} (option {w.req_opt[rid]}) fired {res} with both channels empty"}
     options = sorted(set(w.req_opt.values()))
+    sent_by = {}
+    for e in log_all:
+        if ".sent." in e:
+            o = int(e.rsplit(".", 1)[1])
+            sent_by[o] = sent_by.get(o, 0) + 1
+    nreq_by = {}
+    for v in w.req_opt.values():
+        nreq_by[v] = nreq_by.get(v, 0) + 1
+    for o in sorted(set(sent_by) - set(options)):
+        return {"key": "message-loop", "detail": f"{sent_by[o]} commands sent about option {o} that nobody requested"}
     for o in options:
-        sent = sum(1 for e in log_all if ".sent." in e and e.endswith(f".{o}"))
-        nreq = sum(1 for v in w.req_opt.values() if v == o)
+        sent, nreq = sent_by.get(o, 0), nreq_by[o]
         if sent > 2 * nreq:
             return {"key": "message-loop", "detail": f"{sent} commands sent about option {o} for {nreq} requests"}
         a, b = w.state("A", o), w.state("B", o)
@@ -280,6 +420,55 @@ def _case(la, ra, lb, rb, ops, **kw):
     c = {"la": sorted(la), "ra": sorted(ra), "lb": sorted(lb), "rb": sorted(rb), "ops": list(ops)}
     c.update(kw)
     return c
+
+
+def _remap(c, mp):
+    """the same history about other option bytes"""
+    def f(op):
+        if _isreq(op):
+            q, cmd, o = op.split(":")
+            return f"{q}:{cmd}:{mp.get(int(o), int(o))}"
+        return op
+    d = dict(c, ops=[f(op) for op in c["ops"]])
+    for k in ("la", "ra", "lb", "rb"):
+        d[k] = sorted(mp.get(o, o) for o in c[k])
+    if c.get("then"):
+        d["then"] = {k: [[s_, cmd, mp.get(o, o)] for (s_, cmd, o) in v] for k, v in c["then"].items()}
+    return d
+
+
+_PALETTES = [{1: 255, 3: 13}, {1: 240, 3: 255}, {1: 251, 3: 250}, {1: 10, 3: 254}, {1: 128, 3: 127}, {1: 255, 3: 0}]
+
+
+def _dress(c, i):
+    """spread the legal-but-unusual endpoint kinds over cases whose history was found on plain endpoints: option
+    bytes that mean something else on the wire, policy hooks answering with truthy / falsy non-bools,
+    TelnetTransport + protocol endpoints, byte-wise delivery, deliveries coalesced into one segment"""
+    k = i % 8
+    if k in (1, 5):
+        c = _remap(c, _PALETTES[(i // 8) % len(_PALETTES)])
+    if k in (2, 5, 7):
+        c = dict(c, ret=1 + (i // 8) % 3)
+    if k in (3, 5):
+        c = dict(c, ep="tt")
+    if k == 4 and _wf(c):
+        c = _coalesce(c)
+    if k == 6:
+        c = dict(c, bytewise=1)
+    return c
+
+
+def _coalesce(c):
+    """consecutive deliveries to one side become one segment (same commands, one dataReceived call)"""
+    ops, out = c["ops"], []
+    for op in ops:
+        if op[0] == "d" and out and out[-1][0] in "db" and out[-1][1] == op[1]:
+            prev = out.pop()
+            n = 3 if prev[0] == "d" else int(prev.split(":")[1])
+            out.append(f"b{op[1]}:{n + 3}")
+        else:
+            out.append(op)
+    return dict(c, ops=out)
 
 
 def corpus():
@@ -307,6 +496,30 @@ def corpus():
         _case([], [1], [], [1], ["qA:WILL:1", "dB", "dA", "qB:DONT:1", "dA", "dB"]),
         # requests from inside callbacks (oracle only)
         _case(al, al, al, al, ["qA:WILL:1", "dB", "dA"], then={"0": [["A", "WONT", 1], ["A", "DO", 3]]}),
+        # --- classes added by the mutation audit (harness/mutants/C39) ---
+        # option 255 (IAC) and friends as option bytes
+        _case([255, 1], [255, 1], [255, 1], [255, 1], ["qA:WILL:255", "dB", "dA", "qA:DO:1", "dB", "dA", "qB:DONT:255", "dA", "dB"]),
+        _case([240, 13], [250], [250], [240, 13], ["qA:WILL:240", "qB:WILL:250", "qA:WILL:13", "bB:9", "bA:3", "dA", "dA", "dB"], bytewise=1),
+        # policy hooks answering with truthy / falsy values that are not bools; crossing do / will
+        _case(al, al, al, al, ["qA:DO:1", "qB:WILL:1", "dA", "dB", "qB:DO:3", "dA", "dB"], ret=1),
+        _case(al, al, [], [], ["qA:DO:1", "qA:WILL:3", "dB", "dB", "dA", "dA"], ret=2),
+        # TelnetTransport + protocol endpoints whose protocol accepts different options locally and remotely
+        _case([], [1], [1], [], ["qA:DO:1", "dB", "dA", "qB:WONT:1", "dA", "dB"], ep="tt"),
+        _case([3], [1], [1], [3], ["qA:DO:1", "qB:DO:3", "dA", "dB", "dA", "dB"], ep="tt", ret=3),
+        # several commands in one segment, segments cut inside commands
+        _case(al, al, al, al, ["qA:WILL:1", "qA:DO:3", "bB:6", "bA:6"]),
+        _case(al, al, al, al, ["qA:WILL:1", "qA:DO:3", "bB:4", "qB:WILL:3", "bB:1", "bA:7", "bB:1", "bA:2", "dB", "dB"]),
+        # synchronous transport: the peer's answer arrives before will()/do() returns
+        _case(al, al, al, al, ["sA:WILL:1", "sB:DO:3", "sA:WONT:1", "sB:DONT:3"]),
+        _case(al, al, [], [], ["sA:WILL:1", "sA:DO:3", "qB:WILL:1", "sB:DO:1", "dA"]),
+        _case(al, al, al, al, ["sA:WILL:1"], then={"0": [["A", "WONT", 1], ["B", "DONT", 1]]}),
+        # the same request repeated from its own callback / errback
+        _case(al, al, al, al, ["qA:WILL:1", "dB", "dA"], then={"0": [["A", "WILL", 1]]}),
+        _case(al, al, [], [], ["qA:DO:1", "dB", "dA", "dB", "dA"], then={"0": [["A", "DO", 1]]}),
+        # an option refused again and again
+        _case([1], [1], [], [], ["qA:WILL:1", "dB", "dA"] * 6 + ["qA:DO:1", "dB", "dA"] * 6),
+        # more options than anybody registered
+        _sweep(random.Random(39), 64),
     ]
 
 
@@ -354,19 +567,28 @@ def _subsets(options):
     return out
 
 
-def _random_case(rng, wf=True):
-    k = rng.choice([1, 1, 2, 2, 3, 4])
-    options = rng.sample(OPTS, k)
+def _random_case(rng, wf=True, options=None, n=None, segs=None, sync=None):
+    if options is None:
+        options = rng.sample(OPTS, rng.choice([1, 1, 2, 2, 3, 4]))
     pol = [[o for o in options if rng.random() < 0.65] for _ in range(4)]
     la, ra, lb, rb = pol
-    n = rng.choice([5, 8, 12, 20, 30, 60])
+    if n is None:
+        n = rng.choice([5, 8, 12, 20, 30, 60])
+    if segs is None:
+        segs = wf and rng.random() < 0.5     # byte segments that ignore command boundaries
+    if sync is None:
+        sync = rng.choice([0, 0, 0, 0.3, 1])    # share of requests made on a synchronous transport
     w = World(_case(la, ra, lb, rb, []))
     ops = []
     for _ in range(n):
         r = rng.random()
         busy = [s for s in SIDES if w.inbox[s]]
         if r < 0.5 and busy:
-            op = "d" + rng.choice(busy)
+            s = rng.choice(busy)
+            if segs and rng.random() < 0.6:
+                op = f"b{s}:{rng.choice([1, 1, 2, 3, 4, 5, 6, 6, 7, 9, 12])}"
+            else:
+                op = "d" + s
         else:
             s = rng.choice(SIDES)
             o = rng.choice(options)
@@ -380,35 +602,85 @@ def _random_case(rng, wf=True):
             if wf:
                 if c == "WILL" and o not in (la if s == "A" else lb):
                     (la if s == "A" else lb).append(o)
-                    w.ep[s].local.add(o)
+                    w.pol[s][0].add(o)
                 if c == "DO" and o not in (ra if s == "A" else rb):
                     (ra if s == "A" else rb).append(o)
-                    w.ep[s].remote.add(o)
-            op = f"q{s}:{c}:{o}"
+                    w.pol[s][1].add(o)
+            op = f"{'s' if rng.random() < sync else 'q'}{s}:{c}:{o}"
         w.do(op)
         ops.append(op)
     if rng.random() < 0.5:
-        while w.inbox["A"] or w.inbox["B"]:
+        left = 2 * w.nreq + 8          # (generators must terminate on a tree that loops)
+        while (w.inbox["A"] or w.inbox["B"]) and left > 0:
             s = rng.choice([s for s in SIDES if w.inbox[s]])
             w.do("d" + s)
             ops.append("d" + s)
+            left -= 1
     c = _case(la, ra, lb, rb, ops)
     if rng.random() < 0.2:
         c["bytewise"] = 1
+    if rng.random() < 0.4:
+        c["ret"] = rng.choice([1, 2, 3])
+    if rng.random() < 0.3:
+        c["ep"] = "tt"
     return c
 
 
+def _sweep(rng, k):
+    """a history about k distinct options (k up to 256): one enable request each by either side, answered; then a
+    second round of disables / re-requests on a sample; deliveries interleaved"""
+    options = rng.sample(range(256), k)
+    la, ra, lb, rb = ([o for o in options if rng.random() < 0.8] for _ in range(4))
+    w = World(_case(la, ra, lb, rb, []))
+    ops = []
+
+    def some_deliveries(p):
+        while (w.inbox["A"] or w.inbox["B"]) and rng.random() < p and len(ops) < 12 * k + 400:
+            s = rng.choice([s for s in SIDES if w.inbox[s]])
+            op = rng.choice(["d" + s, "d" + s, f"b{s}:6", f"b{s}:4"])
+            w.do(op)
+            ops.append(op)
+
+    def req(o, enable):
+        s = rng.choice(SIDES)
+        c = rng.choice(["WILL", "DO"] if enable else ["WONT", "DONT", "WILL", "DO"])
+        if c == "WILL" and o not in (la if s == "A" else lb):
+            (la if s == "A" else lb).append(o)
+            w.pol[s][0].add(o)
+        if c == "DO" and o not in (ra if s == "A" else rb):
+            (ra if s == "A" else rb).append(o)
+            w.pol[s][1].add(o)
+        op = f"q{s}:{c}:{o}"
+        w.do(op)
+        ops.append(op)
+    for o in options:
+        req(o, True)
+        some_deliveries(0.7)
+    some_deliveries(1.0)
+    for o in rng.sample(options, min(k, 40)) + options[-6:]:
+        req(o, False)
+        some_deliveries(0.7)
+    some_deliveries(1.0)
+    return _case(la, ra, lb, rb, ops)
+
+
 def _reentrant_case(rng):
-    c = _random_case(rng, wf=True)
+    c = _random_case(rng, wf=True, segs=False, n=rng.choice([5, 8, 12, 20]))
     c.pop("bytewise", None)
-    nreq = sum(1 for op in c["ops"] if op[0] == "q")
+    nreq = sum(1 for op in c["ops"] if _isreq(op))
     options = _options(c) or [1]
+    reqs = [op.split(":") for op in c["ops"] if _isreq(op)]
     then = {}
     for i in range(nreq):
         if rng.random() < 0.4:
             lst = []
             for _ in range(rng.choice([1, 1, 2])):
                 s, o, cmd = rng.choice(SIDES), rng.choice(options), rng.choice(list(CMDS))
+                r = rng.random()
+                if r < 0.35:          # about the option and by the side of the request that is completing:
+                    s, o = reqs[i][0][1], int(reqs[i][2])
+                    if r < 0.15:      # … the very same request again
+                        cmd = reqs[i][1]
                 if cmd == "WILL" and o not in c["l" + s.lower()]:
                     cmd = "WONT"
                 if cmd == "DO" and o not in c["r" + s.lower()]:
@@ -421,22 +693,58 @@ def _reentrant_case(rng):
     return c
 
 
+def _templates(rng):
+    """scenario families that random histories reach only rarely"""
+    al = [1, 3]
+    for o in (1, 255, 13):
+        for k in (2, 4, 5, 7):
+            # the same option offered / asked for again after each refusal, k times, both directions
+            yield _case([o], [o], [], [], ["qA:WILL:%d" % o, "dB", "dA"] * k)
+            yield _case([o], [o], [], [], ["qA:DO:%d" % o, "dB", "dA"] * k + ["qA:WILL:%d" % o, "dB", "dA"] * k)
+            # enabled and disabled again k times, by alternating sides
+            cyc = ["qA:WILL:%d" % o, "dB", "dA", "qB:DONT:%d" % o, "dA", "dB", "qB:DO:%d" % o, "dA", "dB", "qA:WONT:%d" % o, "dB", "dA"]
+            yield _case([o], [o], [o], [o], cyc * k)
+    # crossing requests on a synchronous / coalescing transport
+    for (x, y) in (("WILL", "DO"), ("DO", "WILL"), ("WILL", "WILL"), ("DO", "DO")):
+        yield _case(al, al, al, al, [f"qA:{x}:1", f"qB:{y}:1", f"qA:{y}:3", "bB:6", "bA:9"])
+        yield _case(al, al, al, al, [f"qA:{x}:1", f"sB:{y}:1", f"sA:{y}:3", f"sB:{x}:3"])
+        yield _case(al, al, al, al, [f"sA:{x}:1", f"sB:{y}:1"], ret=2, ep="tt")
+    # every request of a short history repeated once from its own callback
+    for cmds in (("WILL", "WONT"), ("DO", "DONT"), ("WILL", "DO"), ("DO", "WILL")):
+        for sync in ("q", "s"):
+            ops = [f"{sync}A:{cmds[0]}:1", "dB", "dA", f"{sync}A:{cmds[1]}:1", "dB", "dA"]
+            for which in (0, 1):
+                yield _case(al, al, al, al, ops, then={str(which): [["A", cmds[which], 1]]})
+                yield _case(al, al, [], [], ops, then={str(which): [["A", cmds[which], 1]]})
+
+
 def generate(rng, tier):
     quick = tier == "quick"
     one = [1]
     pol1 = [(l1, r1, l2, r2) for l1 in ([], one) for r1 in ([], one) for l2 in ([], one) for r2 in ([], one)]
-    yield from _explore(pol1, [1], 3 if quick else 6, 1500 if quick else 60000)
+    i = 0
+    for c in _explore(pol1, [1], 3 if quick else 6, 1500 if quick else 60000):
+        i += 1
+        yield _dress(c, i)
     two = [1, 3]
     pol2 = [(two, two, two, two), ([1], two, two, [3]), (two, [1], [3], two)] if quick else \
         [(a, b, c, d) for a in _subsets(two) for b in ([1], two) for c in ([3], two) for d in _subsets(two)]
-    yield from _explore(pol2, two, 2 if quick else 4, 600 if quick else 40000)
+    for c in _explore(pol2, two, 2 if quick else 4, 600 if quick else 40000):
+        i += 1
+        yield _dress(c, i)
+    yield from _templates(rng)
+    for k in ([49, 50, 64, 130, 256] if quick else [49, 50, 51, 64, 64, 100, 130, 200, 256, 256]):
+        yield _sweep(rng, k)
     n = 900 if quick else 30000
     for i in range(n):
         r = rng.random()
-        if r < 0.75:
+        if r < 0.68:
             yield _random_case(rng, wf=True)
-        elif r < 0.9:
+        elif r < 0.8:
             yield _random_case(rng, wf=False)
+        elif r < 0.85:
+            # many requests about ONE option (refusals, re-requests, disables accumulate on the same state)
+            yield _random_case(rng, wf=True, options=[rng.choice(OPTS)], n=rng.choice([30, 60, 90]))
         else:
             yield _reentrant_case(rng)
 
@@ -444,8 +752,10 @@ def generate(rng, tier):
 def search(rng, tier, disagreeing):
     """property-directed: the neighbourhood of each disagreement (every prefix, every completion by deliveries),
     then a deeper exhaustive exploration of the real pair"""
-    for c in disagreeing[:20]:
-        for i in range(len(c["ops"]) + 1):
+    for c in sorted(disagreeing, key=lambda c: len(c["ops"]))[:20]:
+        n = len(c["ops"])
+        cuts = range(n + 1) if n <= 80 else sorted(set(rng.sample(range(n + 1), 60)) | {n})    # (long sweeps: a sample)
+        for i in cuts:
             for tail in ([], ["dA", "dB"] * 4, ["dB", "dA"] * 4):
                 yield dict(c, ops=c["ops"][:i] + tail)
     one = [1]
@@ -459,27 +769,41 @@ def shrink(c):
     ops = c["ops"]
     if c.get("then"):
         return
-    for i in range(len(ops)):
+    n = len(ops)
+    if n > 60:          # long histories first lose halves, quarters, … (the engine tries the first 48 candidates per round)
+        k = n // 2
+        while k >= 8:
+            for i in range(0, n, k):
+                yield dict(c, ops=ops[:i] + ops[i + k:])
+            k //= 2
+    for i in range(n):
         yield dict(c, ops=ops[:i] + ops[i + 1:])
-    for i in range(len(ops) - 1, 0, -1):
+    for i in range(n - 1, 0, -1):
         yield dict(c, ops=ops[:i])
-    if c.get("bytewise"):
-        yield {k: v for k, v in c.items() if k != "bytewise"}
+    for i, op in enumerate(ops):
+        if op[0] == "b":
+            yield dict(c, ops=ops[:i] + ["d" + op[1]] + ops[i + 1:])
+        if op[0] == "s":
+            yield dict(c, ops=ops[:i] + ["q" + op[1:]] + ops[i + 1:])
+    for flag in ("bytewise", "ret", "ep"):
+        if c.get(flag):
+            yield {k: v for k, v in c.items() if k != flag}
 
 
 def tag(c, out):
+    flags = "".join(f for f, on in (("R", c.get("ret")), ("T", c.get("ep")), ("Y", c.get("bytewise"))) if on)
     if out == "oracle-only":
-        return "reentrant"
+        return "reentrant" + flags + ("S" if any(op[0] == "s" for op in c["ops"]) else "")
     body = out.split(" final ")[0]
     shapes = set()
-    for opev in body.split("|"):
+    for op, opev in zip(c["ops"], body.split("|")):
         sig = []
         for e in opev.split(","):
             p = e.split(".")
             if len(p) >= 3:
                 sig.append(p[1] + "." + (p[3] if p[1] == "fired" else p[2]))
-        shapes.add("+".join(sig))
-    return " ".join(sorted(shapes))
+        shapes.add((op[0] if op[0] in "bs" else "") + "+".join(sig))
+    return flags + " " + " ".join(sorted(shapes))
 
 
 def nontrivial(c, out):
